@@ -32,7 +32,7 @@ NATIVE = {
     "C07": [("overrun", [], [])],
     "C05": [("minimax", ["--walks=300", "--depth=3"], ["--walks=3000", "--depth=3"])],
     "C08": [("mate-in-one", ["--walks=15"], ["--walks=300"])],
-    "C13": [("newgame", ["--positions=8", "--depth=3"], ["--positions=40", "--depth=4"])],
+    "C13": [("newgame", ["--positions=8", "--depth=3"], ["--positions=150", "--depth=5"])],
     "C09": [("game-history", ["--games=40", "--plies=20"], ["--games=400", "--plies=40"])],
     "C04": [("position-cmd", ["--games=60", "--plies=24"], ["--games=600", "--plies=60"]), ("to-algebraic", [], [])],
 }
